@@ -264,6 +264,9 @@ func c05RunHistory(r *Run, d *c05Drv, hist []string, rec bool, label string) map
 			hsh := sha1.Sum([]byte(strings.Join(v.lines, "\n")))
 			r.Case(string(hsh[:]), len(v.lines) > c05TemplateLines)
 			r.Stat("packages")
+			for _, c := range c05Coverage(v.lines) {
+				r.Stat("wfcov:" + c)
+			}
 			r.Stat(fmt.Sprintf("package-parts:%02d+", min(c05CountPrefix(v.lines, "g.part ")/5*5, 40)))
 		}
 		for _, f := range v.fails {
@@ -284,6 +287,115 @@ func c05RunHistory(r *Run, d *c05Drv, hist []string, rec bool, label string) map
 		}
 	}
 	return sigs
+}
+
+// c05Coverage: which WF conjuncts a package exercises non-trivially (it HAS the thing the
+// conjunct speaks about), so that thin coverage is visible in the evidence distribution.
+func c05Coverage(lines []string) []string {
+	n := map[string]int{}
+	parts := 0
+	for _, l := range lines {
+		w := strings.Fields(l)
+		switch w[0] {
+		case "g.part":
+			parts++
+			p := unhx(w[1])
+			switch {
+			case strings.HasPrefix(p, "xl/media/"):
+				n["media"]++
+			case strings.HasPrefix(p, "xl/drawings/vmlDrawing"):
+				n["vml"]++
+			case strings.HasPrefix(p, "xl/drawings/drawing"):
+				n["drawing"]++
+			case strings.HasPrefix(p, "xl/charts/"):
+				n["chart"]++
+			case strings.HasPrefix(p, "xl/chartsheets/sheet"):
+				n["chartsheet"]++
+			case strings.HasPrefix(p, "xl/pivotTables/"):
+				n["pivot"]++
+			case strings.HasPrefix(p, "xl/slicers/"):
+				n["slicer"]++
+			}
+		case "g.sheet":
+			n["sheet"]++
+		case "g.rel":
+			n["rel"]++
+			if strings.HasSuffix(l, "|"+hx("External")) {
+				n["rel-external"]++
+			}
+		case "g.rid":
+			if unhx(w[1]) != "xl/workbook.xml" {
+				n["rid-nonworkbook"]++
+			}
+		case "g.dname":
+			if w[2] != "-1" {
+				n["dname-local"]++
+			}
+		case "g.row":
+			if len(w) > 2 {
+				n["row-cells"]++
+			}
+			for _, c := range w[2:] {
+				f := strings.Split(c, ",")
+				if len(f) == 5 {
+					if f[2] == hx("s") {
+						n["cell-sst"]++
+					}
+					if f[1] != "0" {
+						n["cell-style"]++
+					}
+				}
+			}
+		case "g.merge":
+			n["merge"]++
+		case "g.dxf":
+			n["dxf"]++
+		case "g.cc":
+			n["calc"]++
+		case "g.table":
+			n["table"]++
+		case "g.comment":
+			n["comment"]++
+		case "g.bad":
+			n["bad"]++
+		case "g.styles":
+			if len(w) > 8 {
+				n["xf>1"]++
+			}
+		}
+	}
+	var out []string
+	add := func(ok bool, name string) {
+		if ok {
+			out = append(out, name)
+		}
+	}
+	add(parts > 10, "ct-cover,zip-unique:parts>template")
+	add(n["media"] > 0, "ct-cover:media")
+	add(n["vml"] > 0, "ct-cover:vml")
+	add(n["rel"] > 6, "rel-id-unique,rel-target:rels>template")
+	add(n["rel-external"] > 0, "rel-target:external")
+	add(n["rid-nonworkbook"] > 0, "rid-resolves:outside-workbook")
+	add(n["sheet"] > 1, "sheet-*:>1-sheet")
+	add(n["chartsheet"] > 0, "sheet-part:chartsheet")
+	add(n["dname-local"] > 0, "dname-localsheet:scoped-name")
+	add(n["xf>1"] > 0, "styles:xf>1")
+	add(n["row-cells"] > 0, "worksheet:rows-with-cells")
+	add(n["cell-sst"] > 0, "worksheet:cell-sst")
+	add(n["cell-style"] > 0, "worksheet:cell-style")
+	add(n["merge"] > 0, "worksheet:merges")
+	add(n["merge"] > 1, "worksheet:merge-overlap(>1)")
+	add(n["dxf"] > 0, "worksheet:dxf")
+	add(n["calc"] > 0, "calc-chain:entries")
+	add(n["table"] > 0, "table-unique:tables")
+	add(n["table"] > 1, "table-unique:>1-table")
+	add(n["comment"] > 0, "comment-author:comments")
+	add(n["drawing"] > 0, "rid-resolves:drawing")
+	add(n["chart"] > 0, "rel-target:chart")
+	add(n["pivot"] > 0, "rel-target:pivot")
+	add(n["slicer"] > 0, "rel-target:slicer")
+	add(n["bad"] > 0, "xml-wellformed:ill-formed-part")
+	return out
 }
 
 var c05TemplateLines = 0
@@ -433,6 +545,22 @@ func c05BkExec(st *c05BkState, line string) string {
 		case "bk.ssetrel":
 			n := xl.VerifC05SetRelsByID(f, unhx(a[0]), c05SheetRels, unhx(a[1]), unhx(a[2]), unhx(a[3]))
 			return fmt.Sprintf("rid=%d ", n) + xl.VerifC05DumpRels(f, c05SheetRels)
+		case "bk.copyrels":
+			from, _ := f.GetSheetIndex("Sheet1")
+			to, _ := f.GetSheetIndex("CopyT")
+			if from < 0 || to < 0 {
+				return "skip"
+			}
+			if err := f.CopySheet(from, to); err != nil {
+				return "ERR"
+			}
+			id := 0
+			for k, n := range f.GetSheetMap() {
+				if n == "CopyT" {
+					id = k
+				}
+			}
+			return xl.VerifC05DumpRels(f, fmt.Sprintf("xl/worksheets/_rels/sheet%d.xml.rels", id))
 		case "bk.sdelrel":
 			xl.VerifC05DeleteSheetRelationships(f, "Sheet1", unhx(a[0]))
 			return xl.VerifC05DumpRels(f, c05SheetRels)
@@ -538,6 +666,9 @@ func c05Bookkeeping(r *Run, rng *Rng, rounds int) {
 					c05BkOp(r, st, "bk.saddrel "+hx(rng.Pick(c05RelTypes))+" "+hx("../t/p"+strconv.Itoa(rng.Intn(9))+".xml")+" "+hx(rng.Pick([]string{"", "External"})))
 				case y < 7:
 					c05BkOp(r, st, "bk.ssetrel "+hx(rng.Pick(c05RelIDs))+" "+hx(rng.Pick(c05RelTypes))+" "+hx("../s.xml")+" "+hx(""))
+				case y < 8:
+					c05BkOp(r, st, "bk.newsheet "+hx("CopyT"))
+					c05BkOp(r, st, "bk.copyrels")
 				default:
 					if c05BkOp(r, st, "bk.sdelrel "+hx(rng.Pick(c05RelIDs))) == "PANIC" {
 						c05BkOp(r, st, "bk.srels")
